@@ -225,6 +225,18 @@ def run_shard(spec, res):
                     continue
                 if c.is_true() or c.is_false():
                     continue
+                if rng.random() < 0.25:
+                    # a conjunction over (mostly) separate variables: solvers that split constraints by variable must
+                    # keep it in one piece
+                    try:
+                        c2 = bvb.build(G.Gen(rng, nvars=1, widths=[8], surface=False, allow_div=False).boolx(1))
+                        c2 = claripy.replace(c2, claripy.BVS("a8", 8, explicit_name=True), claripy.BVS("z8", 8, explicit_name=True))
+                        if not (c2.is_true() or c2.is_false()):
+                            c = claripy.And(c, c2)
+                    except claripy.errors.ClaripyError:
+                        pass
+                    if c.op == "And":
+                        res.count("marked_conjunctions_tried")
                 if rng.random() < 0.6:
                     c = c.annotate(claripy.SimplificationAvoidanceAnnotation())
                     marked.append(c)
@@ -234,6 +246,22 @@ def run_shard(spec, res):
             try:
                 s.add(cons)
                 before = [c for c in s.constraints]
+                mode = i % 4
+                if mode == 1:
+                    # the queries that simplify first
+                    v_ = claripy.BVS("a8", 8, explicit_name=True)
+                    try:
+                        s.max(v_)
+                        s.eval(v_, 3)
+                    except claripy.errors.UnsatError:
+                        pass
+                elif mode == 2:
+                    # a copy that got one more constraint of its own
+                    s = s.branch()
+                    s.add([claripy.BVS("b8", 8, explicit_name=True) != rng.getrandbits(8)])
+                elif mode == 3:
+                    s.simplify()
+                    s.add([claripy.BVS("a8", 8, explicit_name=True) != rng.getrandbits(8)])
                 s.simplify()
                 after = list(s.constraints)
             except claripy.errors.ClaripyError as ex:
@@ -246,7 +274,8 @@ def run_shard(spec, res):
             res.case(["solver", cls.__name__, [repr(c) for c in cons]], True)
             res.count("solver_simplify_judged")
             for c in marked:
-                if any(b is c for b in before) and not any(a is c for a in after):
+                # (a constraint the solver took apart when it was added has been rewritten just as well)
+                if not any(a is c for a in after):
                     res.violation({"kind": "annotation", "what": "solver-rewrote-avoidance-annotated-constraint", "solver": cls.__name__, "constraint": repr(c)[:200], "before": [repr(b)[:120] for b in before], "after": [repr(a)[:120] for a in after]})
                     break
 
